@@ -543,5 +543,70 @@ def first_of_sequences(args):
     return False, "every loop variable of the probe queries is used inside its loop only"
 
 
+@driver
+def redeclared_default_method(args):
+    """a query that redeclares, through metadata, a method for which the back end has a built-in default (xAOD::TruthParticle::prodVtx ...)
+    is translated with the DECLARED type: access operator, column type."""
+    cases = [("prodVtx", "int", "lambda p: p.prodVtx()", r"int _\w+;", "->prodVtx()"),
+             ("parent", "float", "lambda p: p.parent()", r"float _\w+;", "->parent()")]
+    import re
+    for meth, rt, sel, decl, call in cases:
+        q = (_dataset().MetaData(dict(metadata_type="add_method_type_info", type_string="xAOD::TruthParticle", method_name=meth, return_type=rt))
+             .SelectMany("lambda e: e.TruthParticles('T')").Select(sel))
+        try:
+            info, files = translate(q)
+        except Exception as e:
+            return True, "redeclaring xAOD::TruthParticle::%s as %s makes the translation fail: %r" % (meth, rt, e)
+        if not re.search(decl, files["query.h"]):
+            cols = [l.strip() for l in files["query.h"].splitlines() if re.match(r"\s*[\w:<>\*]+ _\w+;", l)]
+            return True, "xAOD::TruthParticle::%s is declared to return %s by the query's metadata, but the column is `%s`" % (meth, rt, "; ".join(cols))
+    return False, "redeclared default methods are translated with their declared types"
+
+
+@driver
+def conditional_structure(args):
+    """`a if test else b` on the real translator: the else block must directly follow, in the same block, the if block on the test's value, and both
+    arms must end by assigning the same result variable (otherwise the else arm pairs with some other `if`, e.g. the check that First() adds)."""
+    import func_adl_xAOD.common.statement as statement
+    from func_adl_xAOD.common.ast_to_cpp_translator import query_ast_visitor
+    roots = []
+    real_emit = query_ast_visitor.emit_query
+
+    def spy(self, e):
+        roots.append(self._gc._block)
+        return real_emit(self, e)
+    query_ast_visitor.emit_query = spy
+    try:
+        for qs in ["lambda e: 1.0 if e.Jets('A').First().pt() > 10 else e.Electrons('B').First().pt()",
+                   "lambda e: e.Jets('A').First().pt() if e.Jets('A').Count() > 0 else 0.0",
+                   "lambda e: e.Jets('A').Select(lambda j: j.pt() if j.eta() > 0 else j.phi())",
+                   "lambda e: e.Jets('A').Select(lambda j: (1.0 if j.pt() > 10 else 2.0) if j.eta() > 0 else e.Tracks('T').First().pt())"]:
+            roots.clear()
+            try:
+                translate(_dataset().Select(qs))
+            except Exception:
+                continue
+            for root in roots:
+                for b in [root] + list(_all_blocks(root)):
+                    for k, st in enumerate(b._statements):
+                        if not isinstance(st, statement.elsephrase):
+                            continue
+                        prev = b._statements[k - 1] if k > 0 else None
+
+                        def targets(blk):
+                            out = set()
+                            for inner in [blk] + list(_all_blocks(blk)):
+                                out |= {x._target.as_cpp() for x in inner._statements if isinstance(x, statement.set_var)}
+                            return out
+                        if not isinstance(prev, statement.iftest) or isinstance(prev, statement.elsephrase):
+                            return True, "%s: an `else` block does not directly follow an `if` block" % qs
+                        if not (targets(prev) & targets(st)):
+                            return True, "%s: the `else` arm (assigning %s) is attached to `if (%s)`, which is not the test of its conditional (that block assigns %s)" % (
+                                qs, sorted(targets(st)), prev._expr.as_cpp(), sorted(targets(prev)))
+    finally:
+        query_ast_visitor.emit_query = real_emit
+    return False, "every else block pairs with the if block of its own conditional"
+
+
 if __name__ == "__main__":
     main()
